@@ -9,7 +9,7 @@ LEVEL = 'exploration'
 SHARDS = {'quick': 4, 'thorough': 16}
 RULE = (
     'G-params (sd, theta_s, b, psi_s) inside the calibration bounds written to the PEST control file, their corners, '
-    'and the published set, built by the real create_specific_yield_function; specific yield evaluated at the 201 '
+    'integer-valued sets (as `theta_s: 1` loads from YAML) and the published set, built by the real create_specific_yield_function; specific yield evaluated at the 201 '
     'tabulated levels (oracle: vectorised discretisation of the Dettmann-Bechtold profile with erfc, 1e-10 relative), '
     'at midpoints (linear) and beyond both ends (constant); for the published set additionally against the '
     'line-by-line transcription of the shipped R script (200 soil layers, np.allclose as the repository\'s own test). '
@@ -27,6 +27,7 @@ REQUIRED = {
         'sy-tables-checked': 20,
         'sy-published-set-vs-R-transcription': 1,
         'sy-corner-sets': 2,
+        'sy-sets-with-integer-valued-parameters': 2,
         'sy-interpolation-points-checked': 2000,
         'T-values-checked': 3000,
         'T-refusals-above-ceiling': 200,
@@ -92,6 +93,8 @@ def check_sy(ctx, rng, params, published=False):
         rec.mark_nontrivial(core.digest(p))
     if p['sd'] in (1e-3, 2.0) and p['b'] in (0.01, 20.0):
         rec.hit('sy-corner-sets')
+    if any(isinstance(v, int) for v in p.values()):
+        rec.hit('sy-sets-with-integer-valued-parameters')
     if len(rec.samples) < 3:
         rec.sample({'params': p, 'levels_mm': levels[98:103].tolist(), 'sy': got[98:103].tolist(), 'profile': ref[98:103].tolist()})
 
